@@ -32,7 +32,10 @@ theorem arith_strict {f : Int → Int → Int} {a b r : PInt} (h : arith true f 
     r.val = f a.val b.val := by
   unfold arith at h
   split at h
-  · cases h; rfl
+  · dsimp only at h
+    split at h
+    · cases h; rfl
+    · cases h
   · split at h
     · cases h
     · dsimp only at h
@@ -110,7 +113,9 @@ theorem intPow_strict {a b r : PInt} (h : intPow true a b = .ok r) :
   · rw [if_pos h1] at h
     split at h
     · exact (throw_ne_ok h).elim
-    · have h := pure_ok_inj h; rw [← h]
+    · split at h
+      · have h := pure_ok_inj h; rw [← h]
+      · exact (throw_ne_ok h).elim
   · rw [if_neg h1] at h
     by_cases h2 : (!(inInt64 a.val && inInt64 b.val)) = true
     · rw [if_pos h2] at h
